@@ -43,6 +43,22 @@ def rsa_key(bits=1024):
     return _KEY[bits]
 
 
+def key_encoding(bits, form):
+    """The server's public key in an encoding the client accepts: canonical SubjectPublicKeyInfo, the bare PKCS#1
+    RSAPublicKey, or SubjectPublicKeyInfo with the optional NULL parameters left out.  The session hash covers the bytes sent."""
+    from cryptography.hazmat.primitives import serialization
+    priv, der = rsa_key(bits)
+    if form == 'pkcs1':
+        return priv, priv.public_key().public_bytes(serialization.Encoding.DER, serialization.PublicFormat.PKCS1)
+    if form == 'nonull' and bits == 1024:
+        i = der.index(bytes.fromhex('0500'), 0, 24)
+        b = bytearray(der[:i] + der[i + 2:])
+        b[2] -= 2
+        b[4] -= 2
+        return priv, bytes(b)
+    return priv, der
+
+
 def rsa_decrypt(priv, data):
     from cryptography.hazmat.primitives.asymmetric.padding import PKCS1v15
     return priv.decrypt(bytes(data), PKCS1v15())
@@ -70,13 +86,13 @@ class Token(object):
         return True
 
 
-def execute(version, script, token, user_plug, seed, thr_of=None, keybits=1024, chunk='random', burst=False):
+def execute(version, script, token, user_plug, seed, thr_of=None, keybits=1024, chunk='random', burst=False, key_form='spki'):
     from minecraft.networking.packets import Packet
     from minecraft.networking.packets import clientbound, serverbound
     from minecraft.exceptions import IgnorePacket
     prof = Profile(version)
     rng = random.Random(seed)
-    priv, der = rsa_key(keybits)
+    priv, der = key_encoding(keybits, key_form)
     run = Run(seed=seed, chunk=chunk)
     info = {'secret': None, 'srv_token': None, 'server_id': None, 'hash': None, 'der': der}
     thr_of = thr_of or (lambda t: THR[t % len(THR)])
@@ -269,7 +285,8 @@ def run(chk):
         version = rng.choice(plug_versions if row['plugOk'] else old_versions)
         rot = i
         run_ = execute(version, row['script'], row['token'], row['userPlug'], chk.seed * 65537 + i,
-                       thr_of=lambda t, rot=rot: THR[(t + rot) % len(THR)], burst=bool(i % 2))
+                       thr_of=lambda t, rot=rot: THR[(t + rot) % len(THR)], burst=bool(i % 2),
+                       key_form=('spki', 'pkcs1', 'nonull')[(i // 2) % 3])
         ev, frames = observe(run_, row['token'], row['userPlug'], None)
         chk.traces += 1
         chk.case(('script', json.dumps(row['script']), row['token'], row['userPlug'], row['plugOk']))
@@ -332,7 +349,8 @@ def run(chk):
                     script.append(['plug', rng.choice([2, 3, 129, 16383, 16384, 2 ** 31 - 2])])
         script.append(['succ'] if rng.random() < 0.6 else ['disc', rng.choice(sorted(TEXTS))])
         token, up = rng.random() < 0.5, rng.random() < 0.3
-        run_ = execute(version, script, token, up, chk.seed * 31 + j, keybits=1024 if j % 7 else 2048, burst=(j % 2 == 0))
+        run_ = execute(version, script, token, up, chk.seed * 31 + j, keybits=1024 if j % 7 else 2048, burst=(j % 2 == 0),
+                       key_form=('spki', 'pkcs1', 'nonull')[j % 3])
         ev, frames = observe(run_, token, up, None)
         chk.traces += 1
         chk.case(('rand', j))
